@@ -10,7 +10,7 @@ NA = {
 
 CHECKS = {
     "C08": dict(
-        technique="typestate / must-pass-through analysis on rustc MIR (custom rustc_private driver + CFG path search)",
+        technique="typestate / must-pass-through analysis on rustc MIR (custom rustc_private driver + CFG path search); dominance of every success publication by the Ok edge of the fallible calls before it",
         text="Decides the wedge clause for all inputs and all failure points: the in-progress marker of the frame-render state "
              "machine is resolved on every CFG exit path (each `?` is an exit edge), the only blocking wait waits only for that "
              "marker inside a re-check loop, and done_render rejects the marker and notifies. Does not decide sample equality "
@@ -59,14 +59,14 @@ CHECKS = {
         note="x86_64 only; trusts rustc's target-feature tables and std_detect's meaning of a feature name",
         ref="DESIGN.md section 3 C02"),
     "C05": dict(
-        technique="ordering / control-dependence rules on MIR of the slot bookkeeping + decision-table extraction of the gating predicates by abstract evaluation of MIR over a finite abstraction; data-dependence of per-channel blend sources on the loop item; forward data flow from the alpha-channel index, followed into applied closures (the alpha plane is converted with its own bit depth; the region list of every grid an alpha plane is taken from is read at that index); call-graph reachability for oriented dimensions; registry of repair guards in blend() / patch()",
+        technique="ordering / control-dependence rules on MIR of the slot bookkeeping + decision-table extraction of the gating predicates by abstract evaluation of MIR over a finite abstraction; data-dependence of per-channel blend sources on the loop item; forward data flow from the alpha-channel index, followed into applied closures (the alpha plane is converted with its own bit depth; the region list of every grid an alpha plane is taken from is read at that index); call-graph reachability for oriented dimensions; registry of repair guards in blend() / patch(); reaching-definition ordering of conditionally clamped values in the blend kernels",
         text="Claimed narrowly: which reference slot a frame reads and which it is saved into. A frame's sources are read before its own "
              "save; saves are control-dependent on can_reference()/lf_level; the per-frame vectors stay index-aligned; and the complete "
              "decision tables of can_reference/is_keyframe/frame-type helpers equal the format's rules. Does not decide the blend arithmetic.",
         note="reference decision tables transcribed from ISO/IEC 18181-1; abstraction: duration {0,1,1000}, save_as_reference 0..3",
         ref="DESIGN.md section 3 C05"),
     "C06": dict(
-        technique="must-pass-through and loop-iteration path rules on MIR (cache invalidation); constant propagation over MIR (header field, enum discriminant and const-generic parameters fixed) comparing filter padding with the reach read from the kernel offset tables; data flow of the base grid's region list into Region::intersection in blend(); registry of repair guards",
+        technique="must-pass-through and loop-iteration path rules on MIR (cache invalidation); constant propagation over MIR (header field, enum discriminant and const-generic parameters fixed) comparing filter padding with the reach read from the kernel offset tables; data flow of the base grid's region list into Region::intersection in blend(); registry of repair guards; evaluation of Region::apply_orientation from MIR over concrete rectangles against the brute-force preimage",
         text="Claimed narrowly: region changes always invalidate. Every store to the requested region reaches reset_cache; reset_cache "
              "clears the loading caches and replaces the handle of every non-ReferenceOnly frame by a fresh handle built for the new "
              "region. Necessary for history-independence of region requests; does not decide padding arithmetic.",
@@ -80,7 +80,7 @@ CHECKS = {
         note="trusts rustc's capture analysis and callee resolution; rayon itself is trusted",
         ref="DESIGN.md section 3 C07"),
     "C13": dict(
-        technique="field-access census + atomic-operation typing + closure-body shape + ownership (drop of handle temporaries) on MIR; dominance ordering of tracker charge before allocation; census of discarded out-of-memory results; store-before-fallible-call ordering on the remembered limit (commit after shrink_limit succeeds)",
+        technique="field-access census + atomic-operation typing + closure-body shape + ownership (drop of handle temporaries) on MIR; dominance ordering of tracker charge before allocation; census of discarded out-of-memory results; store-before-fallible-call ordering on the remembered limit (commit after shrink_limit succeeds); dominance of every success publication by the Ok edge of the fallible calls before it",
         text="Decides the budget arithmetic for every interleaving: bytes_left is only changed by fetch_update(checked_sub) and "
              "fetch_add of exactly the amount recorded in the handle; handles cannot be forged, are not dropped as temporaries, are not "
              "leaked, and exhaustion is never unwrapped. Does not decide untracked allocations or Arc cycles.",
@@ -95,7 +95,7 @@ CHECKS = {
         note="19 of 30 tables were compared by hand with ISO/IEC 18181-1 (listed in tools/gen_bitspec.py), the others are snapshots marked reviewed=false",
         ref="DESIGN.md section 3 C14"),
     "C15": dict(
-        technique="symbolic affine evaluation of MIR (abstract interpretation over {x,y,w,h,1}) of the three orientation maps, coefficient comparison; control-dependence / must-pass-through for channel order; interval analysis of the operands of narrowing casts in the integer output conversions; call-graph reachability (oriented-dimension accessors unreachable from codestream-coordinate code); must-pass-through of the cursor advance in the resumable stream writer; control dependence of the integer fast path on the BitDepth discriminant",
+        technique="symbolic affine evaluation of MIR (abstract interpretation over {x,y,w,h,1}) of the three orientation maps, coefficient comparison; control-dependence / must-pass-through for channel order; interval analysis of the operands of narrowing casts in the integer output conversions; call-graph reachability (oriented-dimension accessors unreachable from codestream-coordinate code); must-pass-through of the cursor advance in the resumable stream writer; control dependence of the integer fast path on the BitDepth discriminant; evaluation of Region::apply_orientation from MIR over concrete rectangles against the brute-force preimage",
         text="Decides the coordinate-map half for all sizes and coordinates: for each of the eight orientations the maps in "
              "FrameBuffer::from_grids, ImageStream::to_original_coord and ImageMetadata::apply_orientation (forward and inverse) equal the "
              "EXIF definition, are mutually inverse and agree on the dimension swap; stream channels are pushed colour, black (cmyk only), "
@@ -110,7 +110,7 @@ CHECKS = {
         note="kernel families are recognised by name after stripping the architecture suffix",
         ref="DESIGN.md section 3 C16"),
     "C03": dict(
-        technique="comparison of rustc-evaluated format tables and enum code maps with references transcribed from the standard; sibling cross-check of the two channel-partition predicates on MIR; scope (construction-site / loop) rule for the RLE run state; who-may-reset-without-previous-channels rule tied to the table-refusal check; concrete evaluation (constant propagation) of the previous-channel depth expression; saturating-index rule for compiled lookup tables; registry of repair guards; data-dependence of the palette fast-path decision on the delta-entry count",
+        technique="comparison of rustc-evaluated format tables and enum code maps with references transcribed from the standard; sibling cross-check of the two channel-partition predicates on MIR; scope (construction-site / loop) rule for the RLE run state; who-may-reset-without-previous-channels rule tied to the table-refusal check; concrete evaluation (constant propagation) of the previous-channel depth expression; saturating-index rule for compiled lookup tables; registry of repair guards; data-dependence of the palette fast-path decision on the delta-entry count; decision table of the delta-prediction bookkeeping by a product-state walk of MIR (block x known integer locals)",
         text="Claimed narrowly: three structural necessary conditions of exact lossless decoding. The weighted-predictor reciprocal table "
              "and the delta palette have the specified values; the 14 predictor codes denote the specified predictors (enum discriminants "
              "and the TryFrom<u32> switch); the predicate that keeps a channel in the global section and the one that skips it when "
@@ -128,7 +128,7 @@ CHECKS = {
         note="the ANS mask / table-size agreement is decided under C02 (R-UNSAFE-b); alias-table construction, prefix lookup tables and hybrid-integer expansion are not decided",
         ref="DESIGN.md section 8.9"),
     "C19": dict(
-        technique="comparison of rustc-evaluated colour constants and recognition tables with references transcribed from the cited standards or derived by formula; writer/reader agreement of the cicp tag layout (offset, element index, codes) extracted from MIR; backward data-flow slice of the recovered chromaticities (no range-limiting operation); sibling agreement of the sign handling in the two scalar directions of each transfer curve; path independence of the TRC-presence store from the curve-recognition store in detect_profile_info",
+        technique="comparison of rustc-evaluated colour constants and recognition tables with references transcribed from the cited standards or derived by formula; writer/reader agreement of the cicp tag layout (offset, element index, codes) extracted from MIR; backward data-flow slice of the recovered chromaticities (no range-limiting operation); sibling agreement of the sign handling in the two scalar directions of each transfer curve; path independence of the TRC-presence store from the curve-recognition store in detect_profile_info; decision table of EnumColourEncoding::cicp over the enum values (abstract evaluation of MIR)",
         text="Claimed narrowly: the named colour constants. Chromaticities of the enumerated white points and primaries, the Bradford "
              "matrix and its inverse, the HLG and PQ constants equal the values of the cited standards, and the ICC parser's recognition "
              "tables map the same chromaticities to the same enum values the synthesiser writes. Does not decide anything numerical about "
@@ -145,7 +145,7 @@ CHECKS = {
         note="sibling agreement is a cross-check, not a proof of equal results: arms that differ only in arithmetic constants of the same operators are not distinguished",
         ref="DESIGN.md section 8.13"),
     "C17": dict(
-        technique="interval abstract interpretation of reconstruction-header fields to panicking operations; backward data-flow of unwrapped iterator searches; validation-check reconstruction from MIR against a reviewed table (through helper and predicate functions); symbolic carving of the data section; per-variant constant-propagating path rules for the status query; registry of repair guards (data-section completeness before slicing / before reporting Available)",
+        technique="interval abstract interpretation of reconstruction-header fields to panicking operations; backward data-flow of unwrapped iterator searches; validation-check reconstruction from MIR against a reviewed table (through helper and predicate functions); symbolic carving of the data section; per-variant constant-propagating path rules for the status query; registry of repair guards (data-section completeness before slicing / before reporting Available); backward data-dependence slice of the ICC payload write on the marker's declared length",
         text="Claimed narrowly: the two clauses visible in the shape of the code. (1) jpeg_reconstruction_status reports Available only on the "
              "Data state of the jbrd box and after each piece of metadata the header expects (ICC, Exif, XMP) has been probed; "
              "reconstruct_jpeg refuses incomplete box states and a missing frame before unwrapping. (2) Hostile reconstruction data is an "
@@ -155,14 +155,14 @@ CHECKS = {
         note="interval domain only: panics depending on relations between header vectors (table index vs table count, is_last markers, Huffman code shapes) are not decided",
         ref="DESIGN.md section 8.8"),
     "C18": dict(
-        technique="validation-check reconstruction from MIR against a reviewed table of the ICC stream decoder's consistency conditions; exhaustive walk of the tag-name decision tree; symbolic normal form of the prediction shift amount",
+        technique="validation-check reconstruction from MIR against a reviewed table of the ICC stream decoder's consistency conditions; exhaustive walk of the tag-name decision tree; symbolic normal form of the prediction shift amount; exhaustive evaluation of the ICC header predictor from MIR (every position, every platform rule) against the format's predictor",
         text="Claimed narrowly: the rejection clause (inconsistent encodings are rejected with an error). 24 consistency conditions of "
              "read_icc/decode_icc (sizes, offsets, command/tag codes, predictor parameters, available data, final length) exist as "
              "compare->error checks with the reviewed bound. Does not decide byte-exactness of accepted profiles.",
         note="table transcribed from the decoder and checked against ISO/IEC 18181-1 Annex on ICC encoding where the condition is explicit; intraprocedural",
         ref="DESIGN.md section 8.6"),
     "C20": dict(
-        technique="protocol-shape rules on MIR: who-may-write census, test-and-set shape, must-pass-through, guard liveness dataflow",
+        technique="protocol-shape rules on MIR: who-may-write census, test-and-set shape, must-pass-through, guard liveness dataflow; dominance of every success publication by the Ok edge of the fallible calls before it",
         text="Decides the structural safety argument of the render-handle protocol for every interleaving: exact writer/locker "
              "sets, atomic acquire, release on all paths, notify under guard, wait in re-check loop, no handle guard live across "
              "a call that can lock a handle. Does not decide that all callers receive identical pixels.",
